@@ -372,13 +372,52 @@ Definition addr_lt (a a' : term) : bool :=
   let (b2, c2) := split_addr a' in
   same_base b1 b2 && (c1 <? c2).
 
+(* an arbitrary fingerprint of a term: it only chooses which of two commuting writes goes inside, so nothing
+   depends on its properties (a collision loses a canonical form, never soundness) *)
+Fixpoint tkey (t : term) : Z :=
+  (match t with
+   | TConst z => 1 + 3 * z
+   | TVar n => 2 + 5 * Z.of_nat n
+   | TSym k => 3 + 7 * Z.of_N k
+   | TEnv0 k => 4 + 11 * Z.of_N k
+   | TEnv1 k a => 5 + 13 * Z.of_N k + 17 * tkey a
+   | TOp1 _ a => 6 + 19 * tkey a
+   | TOp2 o a b => 7 + 23 * Z.of_nat (op2_code o) + 29 * tkey a + 31 * tkey b
+   | TOp3 _ a b c => 8 + 37 * tkey a + 41 * tkey b + 43 * tkey c
+   | TMload m a => 9 + 47 * tkey m + 53 * tkey a
+   | TSload s k => 10 + 59 * tkey s + 61 * tkey k
+   | TKeccak m a n => 11 + 67 * tkey m + 71 * tkey a + 73 * tkey n
+   | MInit => 12
+   | MStore m a v => 13 + 79 * tkey m + 83 * tkey a + 89 * tkey v
+   | MStore8 m a v => 14 + 97 * tkey m + 101 * tkey a + 103 * tkey v
+   | SInit => 15
+   | SStore s k v => 16 + 107 * tkey s + 109 * tkey k + 113 * tkey v
+   end) mod 2305843009213693951.
+
+(* order of two write addresses / keys: by offset when they share their base, by fingerprint otherwise *)
+Definition olt (a a' : term) : bool :=
+  let (b1, c1) := split_addr a in
+  let (b2, c2) := split_addr a' in
+  if same_base b1 b2 then c1 <? c2 else tkey a <? tkey a'.
+
 Fixpoint ins_store (w : bool) (a v m : term) : term :=
   let n := if w then 32 else 1 in
   let top := if w then MStore m a v else MStore8 m a v in
   match m with
   | MStore m' a' v' => if disj n a 32 a' && addr_lt a a' then MStore (ins_store w a v m') a' v' else top
-  | MStore8 m' a' v' => if disj n a 1 a' && addr_lt a a' then MStore8 (ins_store w a v m') a' v' else top
+  | MStore8 m' a' v' =>
+    (* two byte stores of the same value commute whatever their offsets *)
+    if (disj n a 1 a' && addr_lt a a') || (negb w && term_eqb v v' && olt a a')
+    then MStore8 (ins_store w a v m') a' v' else top
   | _ => top
+  end.
+
+(* storage writes commute when the keys are provably different or the values are the same term *)
+Fixpoint ins_sstore (k v s : term) : term :=
+  match s with
+  | SStore s' k' v' =>
+    if (keys_distinct k k' || term_eqb v v') && olt k k' then SStore (ins_sstore k v s') k' v' else SStore s k v
+  | _ => SStore s k v
   end.
 
 (* a store that writes back what is already there is dropped *)
@@ -389,8 +428,8 @@ Definition s_mstore (m a v : term) : term :=
   end.
 Definition s_sstore (s k v : term) : term :=
   match v with
-  | TSload s' k' => if term_eqb k k' && term_eqb s' (relevant_s k s) then s else SStore (drop_same_s k s) k v
-  | _ => SStore (drop_same_s k s) k v
+  | TSload s' k' => if term_eqb k k' && term_eqb s' (relevant_s k s) then s else ins_sstore k v (drop_same_s k s)
+  | _ => ins_sstore k v (drop_same_s k s)
   end.
 
 Fixpoint norm (t : term) : term :=
